@@ -1,55 +1,58 @@
-(* C14 phase 2: agreement of the two reader models on modules without blackbox instances (part D8) *)
+(* C14 phase 2: agreement of the two reader models on the documented subset (part D8) *)
 From stdpp Require Import strings gmap sets pretty.
 From CG Require Import Model.FastVerilog Proofs.FastVerilogProofs Gen.Gen_fastv Base.Sem Base.Compose.
-From CG Require Import Proofs.FvA0 Proofs.FvA1 Proofs.FvA2 Proofs.FvA3 Proofs.FvA4 Proofs.FvA5 Proofs.FvA6 Proofs.FvA7 Proofs.FvA8 Proofs.FvA9 Proofs.FvA10 Proofs.FvB1 Proofs.FvB2 Proofs.FvB3 Proofs.FvB4 Proofs.FvB5 Proofs.FvC1 Proofs.FvC2 Proofs.FvD1 Proofs.FvD2 Proofs.FvD3 Proofs.FvD4 Proofs.FvD5 Proofs.FvD6 Proofs.FvD7.
+From CG Require Import Proofs.FvA0 Proofs.FvA1 Proofs.FvA2 Proofs.FvP1 Proofs.FvE1 Proofs.FvE2 Proofs.FvE3 Proofs.FvE4 Proofs.FvA3 Proofs.FvE5 Proofs.FvE6 Proofs.FvE7 Proofs.FvA4 Proofs.FvA5 Proofs.FvA6 Proofs.FvA7 Proofs.FvA8 Proofs.FvA9 Proofs.FvA10 Proofs.FvB1 Proofs.FvB2 Proofs.FvB3 Proofs.FvB4 Proofs.FvB5 Proofs.FvC1 Proofs.FvC2 Proofs.FvD1 Proofs.FvD2 Proofs.FvD3 Proofs.FvD4 Proofs.FvD5 Proofs.FvD6 Proofs.FvD7.
 Open Scope string_scope.
 
 Section outs.
   Variables (a : ast) (bbs : list bbdef).
   Hypothesis Hsub : in_subset a bbs = true.
-  Hypothesis Hni : no_inst a = true.
   Variables (t0 t1 : string).
   Hypothesis Hfr : t0 ∉ idents a ∧ t1 ∉ idents a.
-  Hypothesis Hne : t0 ≠ t1.
 
-  Lemma fin_outputs c : (∀ m, c !! m = finT t0 t1 a m) → outputs c = list_to_set (decl_outputs a).
+  Lemma fin_outputs c : (∀ m, c !! m = finT t0 t1 bbs a m) → outputs c = list_to_set (decl_outputs a).
   Proof.
     intros Hc. pose proof (in_subset_facts a bbs Hsub) as HF. destruct Hfr as [Hf0 Hf1].
+    assert (Hfr3 : t0 ∉ idents a ∧ t1 ∉ idents a ∧ t1 ∉ idents a) by done.
     apply set_eq. intros m. rewrite elem_of_outputs, elem_of_list_to_set. split.
     - intros (i & Hi & Ho). rewrite Hc in Hi. unfold finT in Hi.
       destruct (decide (m = t0)); [destruct (decide _); by simplify_eq/=|]. destruct (decide (m = t1)); [destruct (decide _); by simplify_eq/=|].
-      destruct (sG (sF t0 t1 a) !! m) as [[t fis]|].
+      destruct (sG (sF t0 t1 bbs a) !! m) as [[t fis]|].
       + simplify_eq/=. by apply bool_decide_eq_true in Ho.
       + destruct (decide (m ∈ decl_inputs a)); [|done]. simplify_eq/=. by apply bool_decide_eq_true in Ho.
     - intros Hm. rewrite Hc. unfold finT.
       destruct (outs_not_tie a t0 t1 (conj Hf0 Hf1) m Hm) as [N0 N1]. rewrite decide_False, decide_False by done.
-      destruct (sG (sF t0 t1 a) !! m) as [[t fis]|] eqn:E.
+      destruct (sG (sF t0 t1 bbs a) !! m) as [[t fis]|] eqn:E.
       + eexists. split; [done|]. simpl. by apply bool_decide_eq_true.
       + destruct (sf_outs a bbs HF m Hm) as [Hd|Hi].
-        * exfalso. rewrite (drivers_eq a bbs t0 t1) in Hd by done. apply elem_of_list_bind in Hd as (it & Hd & Hit).
-          unfold it_driver in Hd. destruct (gate_view t0 t1 it) as [[o' v]|] eqn:Ev; [|by apply elem_of_nil in Hd].
-          apply elem_of_list_singleton in Hd as ->.
-          pose proof (proj2 (G_iff a bbs Hsub Hni t0 t1 o' v) (ex_intro _ it (conj Hit Ev))) as HG. by rewrite HG in E.
+        * exfalso. apply elem_of_list_bind in Hd as (it & Hd & Hit).
+          pose proof (drivers_sub a bbs t0 t1 t1 HF Hfr3 it m Hit Hd) as Hk. unfold it_driver in Hk. apply elem_of_list_fmap in Hk as ([o' v] & Heq & Hv). simpl in Heq. subst o'.
+          pose proof (proj2 (G_iff a bbs Hsub t0 t1 (conj Hf0 Hf1) m v) (ex_intro _ it (conj Hit Hv))) as HG. by rewrite HG in E.
         * rewrite decide_True by done. eexists. split; [done|]. simpl. by apply bool_decide_eq_true.
   Qed.
 End outs.
 
-Theorem property_gates_io a bbs : in_subset a bbs = true → no_inst a = true →
+Theorem property_io a bbs : in_subset a bbs = true →
   ∃ Cf Cl, fast_sem a bbs = Ok Cf ∧ full_sem a bbs = Ok Cl ∧
     inputs (c_g Cf) = list_to_set (decl_inputs a) ∧ inputs (c_g Cl) = list_to_set (decl_inputs a) ∧
     outputs (c_g Cf) = list_to_set (decl_outputs a) ∧ outputs (c_g Cl) = list_to_set (decl_outputs a).
 Proof.
-  intros Hsub Hni.
-  destruct (fast_sem_char a bbs Hsub Hni) as (g3 & g4 & Hg3 & Hg4 & Hfast).
-  destruct (full_sem_char a bbs Hsub Hni) as (C1 & g1 & Hrel & _ & Hg1 & Hfull).
+  intros Hsub.
+  destruct (fast_sem_char a bbs Hsub) as (g3 & g4 & Bf & Hg3 & Hg4 & Hfast).
+  destruct (full_sem_char a bbs Hsub) as (C1 & g1 & Hrel & Hg1 & Hfull).
   destruct (full_ties_facts a) as (_ & (Hl0 & Hl1 & Hlx) & N01 & N0x & N1x).
-  destruct (fast_fresh a) as [Hk0 Hk1].
-  pose proof (fast_fin a bbs Hsub Hni (kt0 a) (kt1 a) (conj Hk0 Hk1) (fast_ne a) g3 g4 Hg3 Hg4) as Hf.
-  assert (Hl : ∀ m, drop3 g1 (ft0 a) (ft1 a) (ftx a) !! m = finT (ft0 a) (ft1 a) a m).
-  { apply (full_fin a bbs Hsub Hni (ft0 a) (ft1 a) (conj Hl0 Hl1) N01 (ftx a) (c_g C1) g1); try done; by apply not_eq_sym. }
+  destruct (full_ties_nodot a) as (Hd0 & Hd1 & Hdx).
+  destruct (fast_fresh a) as [Hk0 Hk1]. pose proof (fast_nodot a) as Hkd.
+  pose proof (fast_fin a bbs Hsub (kt0 a) (kt1 a) (conj Hk0 Hk1) (fast_ne a) Hkd g3 g4 Hg3 Hg4) as Hf.
+  assert (Hl : ∀ m, drop3 g1 (ft0 a) (ft1 a) (ftx a) !! m = finT (ft0 a) (ft1 a) bbs a m).
+  { apply (full_fin a bbs Hsub (ft0 a) (ft1 a) (conj Hl0 Hl1) N01 (conj Hd0 Hd1) (ftx a) (c_g C1) g1); try done; by apply not_eq_sym. }
   eexists _, _. split; [exact Hfast|]. split; [exact Hfull|]. cbn [c_g].
-  split; [by apply (fin_inputs a bbs Hsub Hni _ _ (conj Hk0 Hk1) (fast_distinct6 a))|].
-  split; [by apply (fin_inputs a bbs Hsub Hni _ _ (conj Hl0 Hl1) (full_distinct6 a))|].
-  split; [eapply (fin_outputs a bbs Hsub Hni (kt0 a) (kt1 a)); eauto|eapply (fin_outputs a bbs Hsub Hni (ft0 a) (ft1 a)); eauto].
-  Unshelve. all: try done. apply fast_ne.
+  split; [by apply (fin_inputs a bbs Hsub _ _ (conj Hk0 Hk1) (fast_distinct6 a) Hkd)|].
+  split; [by apply (fin_inputs a bbs Hsub _ _ (conj Hl0 Hl1) (full_distinct6 a) (conj Hd0 Hd1))|].
+  split; [by apply (fin_outputs a bbs Hsub _ _ (conj Hk0 Hk1))|by apply (fin_outputs a bbs Hsub _ _ (conj Hl0 Hl1))].
 Qed.
+Corollary property_gates_io a bbs : in_subset a bbs = true → no_inst a = true →
+  ∃ Cf Cl, fast_sem a bbs = Ok Cf ∧ full_sem a bbs = Ok Cl ∧
+    inputs (c_g Cf) = list_to_set (decl_inputs a) ∧ inputs (c_g Cl) = list_to_set (decl_inputs a) ∧
+    outputs (c_g Cf) = list_to_set (decl_outputs a) ∧ outputs (c_g Cl) = list_to_set (decl_outputs a).
+Proof. intros H _. by apply property_io. Qed.
